@@ -382,7 +382,9 @@ func (a *argSpec) typeCheck(arg interface{}) error {
 				return nil
 			}
 		case jpAny:
-			return nil
+			if _, ok := arg.(expRef); !ok {
+				return nil
+			}
 		case jpExpref:
 			if _, ok := arg.(expRef); ok {
 				return nil
